@@ -129,11 +129,11 @@ PROPS["C19"] = {
 ENGINE_TEXT["nt"] = "tunable owners (generated classes, several instances/prefixes) against in-process NetworkTables clients on the real local ntcore instance: interleaved writes/reads from both sides, pre-existing values, restart with NT surviving"
 PROPS["C09"] = {
     "engine": "nt", "level": "exploration",
-    "rule": "seeded owner classes (inheritance, every supported tunable kind incl. bytes, structs, arrays, type-hinted empty sequences, subtables, writeDefault on/off), 1-3 instances under components/autonomous/no prefix, values present before setup, then interleaved python-side and client-side writes/reads and restarts; after every write every attribute of every instance is read from both sides; non-trivial = both sides wrote the same topic; distinct = distinct sequence of (op, kind)",
+    "rule": "seeded owner classes (inheritance, every supported tunable kind incl. bytes, structs, arrays, type-hinted empty sequences, subtables, writeDefault on/off), 1-3 instances under components/autonomous/no prefix, values present before setup, then interleaved python-side and client-side writes/reads and restarts; after every write every attribute of every instance is read from both sides; every 8th run lets a real MagicRobot.robotInit() create and bind the owners (components by annotation, the robot class itself, an autonomous mode found by the selector) instead of calling setup_tunables directly; non-trivial = both sides wrote the same topic; distinct = distinct sequence of (op, kind)",
     "level_text": "seeded search over interleavings of robot-code and NetworkTables-client accesses on the real ntcore local instance with a key->value reference map as oracle, plus topic name/type checks at every (re)setup; sampling, not proof",
     "level_note": "trusted: ntcore local instance (no network transport; client = second set of handles in the same process); struct types Rotation2d/Translation2d stand for all WPIStruct types",
     "quick": {"runs": 6000, "wall_s": 150}, "thorough": {"runs": 300000, "wall_s": 1500},
-    "probes_expected": ["both_sides_wrote_same_topic", "default_overwrote_existing", "existing_value_preserved", "multi_instance_runs", "python_writes", "client_writes"],
+    "probes_expected": ["both_sides_wrote_same_topic", "default_overwrote_existing", "existing_value_preserved", "multi_instance_runs", "python_writes", "client_writes", "framework_setup_runs"],
     "state_measure": "(op, tunable kind, writeDefault, subtable, owner prefix) combinations exercised, hashed (no transition measure)",
     "real_vs_stub": {"real": ["magicbot.magic_tunable (tunable, setup_tunables)", "ntcore local instance, typed topics, struct serialisation"],
                      "simulated": ["dashboard / NT client (in-process typed publishers and subscribers)", "robot-code restart (new instance bound to the same name)"]},
